@@ -208,6 +208,12 @@ def _wrap(res, e, results, op):
     summarize_paths(res, e, results, lambda r: r.info if isinstance(r.info, dict) else None, key_prefix=f'C07.K1:{op}:', unwind_ok=True)
 
 
+F58_SRC = ('fn s(ch, done) {\n  ch <- 1;\n  print("sender proceeded");\n  done <- 1;\n}\nlet ch = chan();\nlet done = chan(1);\nlaunch s(ch, done);\n'
+           'let tick = chan(1);\nfn t(tick) { tick <- 1; }\nlaunch t(tick);\n<- tick;\nch.close();\nprint(<- ch);\nprint(<- ch);\nprint(<- done);\n')
+F58_REPLAY = dict(kind='lay', source=F58_SRC, expect_stdout='1\nnil\nsender proceeded\n1\n', bad_re='deadlock',
+                  note='a synchronous sender is blocked, the channel is closed by another fiber and then drained: the sender is never resumed')
+
+
 @obligation('C07.K1.runnable_waiter', 'C07', programs=('core',))
 def k1_runnable(res, tier):
     """ChannelQueue::runnable_waiter: a parked sender of a synchronous channel is never handed out as runnable while its value is
@@ -233,6 +239,16 @@ def k1_runnable(res, tier):
             w0 = e.materialise(WAITER, TermBacking(z3.Select(arr, head + i), st.rw.seq.tyname))
             run0 = w0.data_cell(e).get(e).field(e, 0, 'bool').get(e)
             e.check(z3.Not(z3.And(closed, z3.UGE(ln, 1), to_z3_bool(run0))), 'closed queue: a runnable receiver waiting on it is handed out (its receive can complete)')
+            # and on a closed queue with nothing left in it every parked sender can complete: the value of a blocked synchronous sender
+            # was taken, a sender that sleeps for room meets the closed channel when it retries
+            shead, sln, sarr = st.sw0
+            j = z3.BitVec('sw_pos', 64)
+            e.add_constraint(z3.ULT(j, sln))
+            s0 = e.materialise(WAITER, TermBacking(z3.Select(sarr, shead + j), st.sw.seq.tyname))
+            srun0 = s0.data_cell(e).get(e).field(e, 0, 'bool').get(e)
+            # (a buffered channel has no blocked senders: every parked sender retries, whatever is still buffered)
+            e.check(z3.Not(z3.And(closed, z3.Or(st.len0 == 0, st.kt == st.K['Buffered']), z3.UGE(sln, 1), to_z3_bool(srun0))),
+                    'closed queue with nothing buffered: a runnable sender waiting on it is handed out (its value was taken, or its retry meets the closed channel)')
             return {'result': 'None'}
         w = r.field(e, 'Some', 0, WAITER).get(e)
         from_send, _ = _came_from(e, st, w, 'send')
@@ -254,6 +270,12 @@ def k1_runnable(res, tier):
         return {'result': 'Some'}
     results = e.explore(path)
     for r in results:
+        for lab, ok, info in list(r.checks):
+            if not ok and 'a runnable sender waiting on it is handed out' in lab:
+                res.fail('C07.K1:runnable_waiter: parked senders of a closed, drained queue are never found',
+                         'runnable_waiter looks only at the receivers of a closed queue: a synchronous sender whose value was taken after the close '
+                         'is never resumed, a sender sleeping for room never gets its closed-channel error ("Fatal error deadlock" instead)', info, replay=F58_REPLAY)
+                r.checks.remove((lab, ok, info))
         if r.kind in ('panic', 'oob', 'unreachable', 'ub', 'diverge', 'depth'):
             res.fail(f'C07.K1:runnable_waiter:{r.kind}', f'path ends in {r.kind}: {str(r.info)[:200]}', {'path': str(r.info)})
     summarize_paths(res, e, results, lambda r: r.info if isinstance(r.info, dict) else None, key_prefix='C07.K1:runnable_waiter:', unwind_ok=True)
